@@ -38,6 +38,10 @@ def floors(tier):
 
 
 def rand_range(rng):
+    if rng.random() < 0.08:
+        # small or large in absolute terms, wide relative to its own magnitude: as non-degenerate as [0, 360]
+        sc = 10.0 ** rng.choice([-12, -10, -9, -6, -3, 6, 9])
+        return [x * sc for x in rng.choice([[0, 5], [2.5, -2.5], [1, 3], [7, 0], [-4, -1]])]
     r = rng.random()
     if r < 0.5:
         return list(rng.choice([[0, 360], [0, 1000], [0, 760], [20, 980]]))
